@@ -194,7 +194,11 @@ def round_trip(rec, label, xml_text, scratch, formats=("xml", "mediawiki", "tsv"
                 continue
             reloaded[tag] = R
             dR = dump(R)
-            eq = (R == S)
+            try:
+                eq = (R == S)
+            except Exception as e:
+                rec.violation(f"C05:{kind}:{tag}:schema-comparison-raises:{type(e).__name__}", error=repr(e)[:300], **where)
+                continue
             diff = dump_diff(dS, dR) or dump_diff(dR, dS)
             if (not eq or diff) and nowiki and fmt == "mediawiki":
                 rec.violation("C05:description-with-literal-nowiki-markup:mediawiki-round-trip-loses-it",
@@ -238,10 +242,10 @@ def round_trip(rec, label, xml_text, scratch, formats=("xml", "mediawiki", "tsv"
                                   path=tag2, error=repr(e)[:300], **where)
                     continue
                 diff = dump_diff(dS, dump(R2)) or dump_diff(dump(R2), dS)
-                if (not (R2 == S) or diff) and nowiki and fmt == "mediawiki":
+                if (not same(R2, S) or diff) and nowiki and fmt == "mediawiki":
                     rec.violation("C05:description-with-literal-nowiki-markup:mediawiki-round-trip-loses-it",
                                   detail=diff or "", **where)
-                elif not (R2 == S) or diff:
+                elif not same(R2, S) or diff:
                     rec.violation(f"C05:{kind}:second-generation:{fmt}:{'merged' if merged else 'unmerged'}:reloaded-differs",
                                   path=tag2, detail=diff or "eq-only", **where)
         # a TSV save into a directory that already holds an earlier save of the same schema in the other mode
@@ -261,10 +265,19 @@ def round_trip(rec, label, xml_text, scratch, formats=("xml", "mediawiki", "tsv"
                                   error=repr(e)[:300], **where)
                     continue
                 diff = dump_diff(dS, dump(R3)) or dump_diff(dump(R3), dS)
-                if not (R3 == S) or diff:
+                if not same(R3, S) or diff:
                     rec.violation(f"C05:{kind}:tsv-resave-into-same-directory:reloaded-differs", first_merged=first_merged,
                                   detail=diff or "eq-only", **where)
     return S
+
+
+def same(a, b):
+    """Schema equality as the library defines it; a comparison that raises counts as 'not equal' (the first-generation
+    comparison of the same schemas reports the exception itself)."""
+    try:
+        return a == b
+    except Exception:
+        return False
 
 
 def wiki_text_limit(xml_text):
@@ -451,6 +464,15 @@ def edits_menu(root):
             if a.findtext("name") not in ("inLibrary", "hedId"):
                 n.remove(a)
     menu.append(("remove-attributes-of-leaf", strip_attrs))
+    # a schema without prologue / epilogue text (a partnered library reloaded unmerged must not show its partner's)
+    for which in (("prologue",), ("epilogue",), ("prologue", "epilogue")):
+        def clear_text(rt, which=which):
+            for w in which:
+                e = rt.find(w)
+                if e is not None:
+                    e.text = ""
+        if all(root.find(w) is not None and (root.find(w).text or "").strip() for w in which):
+            menu.append(("clear-" + "+".join(which), clear_text))
     ucd = root.find("unitClassDefinitions")
     if ucd is not None:
         def add_unit(rt):
@@ -729,7 +751,8 @@ def build_jobs(thorough):
         sub = labels if thorough else labels[::3]
         if partnered:
             core_edits = ["add-unit", "add-unit:last-class", "add-unit-class", "add-value-class", "add-unit-modifier", "add-rooted-library-node",
-                          "add-leaf:top", "add-node-multi-valued:suggestedTag", "add-value-taking-node:1u1v", "add-rooted-subtree:Agent"]
+                          "add-leaf:top", "add-node-multi-valued:suggestedTag", "add-value-taking-node:1u1v", "add-rooted-subtree:Agent",
+                          "clear-prologue", "clear-prologue+epilogue"]
             sub = labels[::2] if thorough else [l for l in labels if l in core_edits]
             depth = 2
         for d in range(2, depth + 1):
